@@ -21,6 +21,8 @@ use std::time::{Duration, Instant, SystemTime};
 const T_MS: u64 = 1500;
 const TICK_MS: u64 = 1700;
 const RACE_T_MS: u64 = 8;
+/// a pause = 3/10 of the session time-out: traffic spaced by pauses keeps a session alive across several time-outs
+const PAUSE_MS: u64 = 450;
 const BASE_S: u64 = 1_700_000_000;
 
 fn base_now() -> SystemTime {
@@ -383,6 +385,7 @@ pub struct TsiEngine {
     all_ev: Vec<(bool, String)>,
     all_cb: Vec<Cb>,
     had_tick: bool,
+    pause_ok: bool,
     has_neutral_edits: bool,
     opn: u64,
     /// secondary listeners: id -> (log, index into all_ev at registration, index at removal)
@@ -409,6 +412,7 @@ impl TsiEngine {
             all_ev: Vec::new(),
             all_cb: Vec::new(),
             had_tick: false,
+            pause_ok: false,
             has_neutral_edits: false,
             opn: 0,
             sec: HashMap::new(),
@@ -909,6 +913,7 @@ impl Engine for TsiEngine {
         self.all_ev.clear();
         self.all_cb.clear();
         self.had_tick = false;
+        self.pause_ok = false;
         self.has_neutral_edits = false;
         self.opn = 0;
         self.sec.clear();
@@ -965,9 +970,11 @@ impl Engine for TsiEngine {
                 };
                 let to = match t[3] {
                     "-" => false,
-                    "0" => true,
+                    // "0": the model expires a session at the first tick; "10": time-out = 10 model units, `pause` = 3
+                    "0" | "10" => true,
                     _ => return "bad-op".into(),
                 };
+                self.pause_ok = t[3] == "10";
                 if self.live.is_some() {
                     return "bad-op".into();
                 }
@@ -1122,6 +1129,16 @@ impl Engine for TsiEngine {
                 // the caller-supplied time moves with the wall clock
                 self.opn += TICK_MS;
                 self.stale = self.pending.clone();
+                "ok".into()
+            }
+            ("pause", 2) => {
+                if self.live.is_none() || !self.pause_ok {
+                    return "bad-op".into();
+                }
+                // sub-time-out spacing: nothing becomes stale, the supplied time moves with the wall clock
+                self.record(HOp::Tick);
+                std::thread::sleep(Duration::from_millis(PAUSE_MS));
+                self.opn += PAUSE_MS;
                 "ok".into()
             }
             ("ladd", 2) => {
@@ -1594,6 +1611,60 @@ fn session_case(ctx: &mut Ctx, eng: &mut dyn Engine, rng: &mut Rng, id: &str, or
     ctx.nontrivial(id);
 }
 
+/// A carousel that only repeats what was already received: every object of 1-2 sessions is completed, then for more
+/// than one session time-out the sessions receive ONLY duplicates (packets of the same FDT instance and of completed
+/// objects) at sub-time-out spacing, with cleanup in between.  While traffic keeps arriving the session has not ended:
+/// no close, no re-open, no re-delivery (oracles `listener-expiry-early`, `isolation`/`reference-*`; model: alive).
+fn keepalive_case(ctx: &mut Ctx, eng: &mut dyn Engine, rng: &mut Rng, id: &str) {
+    eng.reset();
+    ctx.case(id);
+    let nsess = rng.range(1, 2) as usize;
+    let mut sess: Vec<SessSpec> = Vec::new();
+    for i in 0..nsess {
+        let (ep, tsi) = if rng.bool() { (format!("-/{}/5000", i), 1u64) } else { ("3/0/5000".to_string(), 1 + i as u64) };
+        let seed = rng.below(1 << 20);
+        let nobj = rng.range(1, 2) as u32;
+        let st = get_stream(&ep, tsi, seed, nobj).unwrap();
+        ctx.step(eng, &format!("tsi sess {} {} {} {} {}", i, ep, tsi, seed, nobj));
+        sess.push(SessSpec { sid: i as u32, ep, tsi, len: st.pkts.len(), cursor: 0 });
+    }
+    ctx.step(eng, "tsi new 0 10");
+    // the whole streams, interleaved, in order: everything on air is received
+    let maxlen = sess.iter().map(|s| s.len).max().unwrap_or(0);
+    for idx in 0..maxlen {
+        for s in sess.iter() {
+            if idx < s.len {
+                astep(ctx, eng, &format!("tsi push {} {} d {} {}", s.ep, s.tsi, s.sid, idx));
+            }
+        }
+    }
+    astep(ctx, eng, "tsi cleanup");
+    // 6 x 450 ms = 2.7 s > 1.5 s time-out of nothing but repeats
+    for _round in 0..6 {
+        ctx.step(eng, "tsi pause");
+        for s in sess.iter() {
+            let n = rng.range(1, 3);
+            for _ in 0..n {
+                let idx = if rng.chance(1, 3) { 0 } else { rng.below(s.len as u64) as usize };
+                astep(ctx, eng, &format!("tsi push {} {} d {} {}", s.ep, s.tsi, s.sid, idx));
+            }
+        }
+        astep(ctx, eng, "tsi cleanup");
+    }
+    // one of the sessions now falls silent: it - and only it - expires after a full time-out
+    if nsess == 2 {
+        ctx.step(eng, "tsi tick");
+        let s = &sess[0];
+        astep(ctx, eng, &format!("tsi push {} {} d {} {}", s.ep, s.tsi, s.sid, 0));
+        astep(ctx, eng, "tsi cleanup");
+    }
+    astep(ctx, eng, "tsi drop");
+    ctx.step(eng, "tsi llog 0");
+    ctx.end_case(eng);
+    ctx.count("keep-alive cases (only repeats of received objects / FDT for > 1 session time-out)");
+    ctx.nontrivial(id);
+}
+
 pub fn run(ctx: &mut Ctx, eng: &mut dyn Engine) {
     let thorough = ctx.tier_thorough;
     let (d_full, d_one) = if thorough { (5usize, 6usize) } else { (4usize, 5usize) };
@@ -1604,7 +1675,7 @@ pub fn run(ctx: &mut Ctx, eng: &mut dyn Engine) {
          are pushed through a real MultiReceiver with filtering on, bit = session opened, compared with the Lean model and with independent saturating counters; \
          (b) {} cases of 2-4 real Sender sessions (equal TSIs on distinct endpoints, distinct TSIs on one endpoint, distinct sources) interleaved by seeded schedules \
          with close-session packets, cleanup, filter ops, listeners added/removed mid-way, and genuine packets edited in RFC-legal ways (Close Session flag on data / FDT / last packets, Close Object flag, rewritten CCI; callbacks and events must equal a reference run in which a close-flagged packet = the unedited packet + a bare close packet): per op the listener events AND the (endpoint, tsi) carried by every writer callback of the call (incl. the callbacks made when a receiver is destroyed at close / expiry / drop) vs model (the implementation reports the number of callbacks per session as an annotation of the op line, the model answers which key each carries), per session callbacks (per TOI) and events vs a solo run and vs a reference run that processes exactly the packets the independent reference counters accept (cases with ticks included: one replay pass, one sleep per tick); \
-         (c) {} cases with out-of-order/duplicate packets and {} cases with session expiry (time-out {} ms, tick = {} ms sleep), drop at the end; \
+         (c) {} cases with out-of-order/duplicate packets and {} cases with session expiry (time-out {} ms, tick = {} ms sleep), drop at the end, plus keep-alive cases: every object completed, then only repeats of received packets / the same FDT instance every 450 ms for 2.7 s (> time-out) with cleanups - the session must stay open, nothing re-delivered; \
          (d) {} runs of {} sessions expiring while cleanup runs continuously; non-trivial = sequences with an add, a remove and an accepted probe / every session case",
         d_full, d_one, n_iso, n_lis, n_exp, T_MS, TICK_MS, n_race, race_n
     );
@@ -1642,6 +1713,9 @@ pub fn run(ctx: &mut Ctx, eng: &mut dyn Engine) {
     eprintln!("tsi: lis cases done after {:?}", t_start.elapsed());
     for i in 0..n_exp {
         session_case(ctx, eng, &mut rng, &format!("exp-{}", i), false, true);
+    }
+    for i in 0..(if thorough { 12 } else { 2 }) {
+        keepalive_case(ctx, eng, &mut rng, &format!("keepalive-{}", i));
     }
     eprintln!("tsi: session cases done after {:?}", t_start.elapsed());
     // (d)
